@@ -62,6 +62,7 @@ type CheckSpec struct {
 	Generated   map[string]string `json:"generated"` // virtual path -> generator name
 	ZeroStubs   []string          `json:"zero_stubs"` // functions replaced by "return zero values" (formatting / logging helpers)
 	SkipInit    []string          `json:"skip_init"`  // packages whose initialiser is not run (globals stay zero)
+	Optional    map[string][]string `json:"optional"` // virtual file -> harnesses that live in it; dropped together when the file stops compiling
 }
 
 type Engine2 struct{}
@@ -305,6 +306,31 @@ func cmdCheck(args []string) int {
 		return 2
 	}
 	prog, pkgs, err := loadProgram(cs)
+	lostHarness := false
+	if err != nil && len(cs.Optional) > 0 {
+		// harness files that reach into the representation may stop compiling when the
+		// code under test is refactored: drop them (and the harnesses that live in them)
+		// and decide with the harnesses that only use the API
+		fmt.Println(err)
+		drop := map[string]bool{}
+		for f, hs := range cs.Optional {
+			delete(cs.Files, f)
+			for _, h := range hs {
+				drop[h] = true
+			}
+		}
+		var keep []*HarnessSpec
+		for _, h := range cs.Harnesses {
+			if drop[h.Func] {
+				fmt.Printf("NOTE property=%s harness %s does not build against this tree and is skipped (its verdict is missing: the run cannot exit 0)\n", cs.Property, h.Func)
+				lostHarness = true
+			} else {
+				keep = append(keep, h)
+			}
+		}
+		cs.Harnesses = keep
+		prog, pkgs, err = loadProgram(cs)
+	}
 	if err != nil {
 		fmt.Println(err)
 		fmt.Printf("INCONCLUSIVE property=%s reason=harness-does-not-build\n", cs.Property)
@@ -364,6 +390,9 @@ func cmdCheck(args []string) int {
 		if rank[c] > rank[exit] {
 			exit = c
 		}
+	}
+	if lostHarness {
+		bump(2)
 	}
 	var allViol []*Violation
 	var allKnown []*Violation
